@@ -18,7 +18,7 @@ from enspara import ra
 PROPERTY = "C06"
 LEVEL = "exploration"
 RULE = ("A Hypothesis RuleBasedStateMachine starts from a generated RaggedArray (1..5 rows of length 1..5, equal or "
-        "unequal, int64 or float64, built from nested lists / list of arrays / flat data + lengths given as ndarray, "
+        "unequal, one machine in five or so with one EMPTY row among scalar-element rows, int64 or float64, built from nested lists / list of arrays / flat data + lengths given as ndarray, "
         "python ints or numpy ints) and applies up to 30 (thorough 50) operations drawn for the current state: "
         "element set, same-length row set, row-slice/row-list set from a RaggedArray, a[i, slice]=, a[rows, slice]= "
         "(scalar / per-row values / RaggedArray), a[rows, j]=, paired fancy set, a[i, cols]=, a[rows_arr, j]=, mask "
@@ -253,7 +253,7 @@ class Core:
                                 % (len(val), n_sel))
         else:
             i = op["i"]
-            if self.vec:
+            if self.vec or len(self.m[i]) == 0:
                 return True
             j = op["j"] % len(self.m[i])
             self.lib_must_raise(lambda: self.a.__setitem__((i, j), [1, 2, 3]), "three values written to one cell")
@@ -503,6 +503,7 @@ def history_info(history):
     classes = ["op=" + k for k in sorted(set(kinds))]
     classes.append("init_path=" + init.get("path", "?"))
     classes.append("init_equal_lengths=%s" % (len(set(lens)) == 1))
+    classes.append("init_has_empty_row=%s" % (0 in lens))
     classes.append("dtype=" + init.get("dtype", "?"))
     classes.append("vector_elements=%s" % bool(init.get("vec")))
     classes.append("steps=%d+" % (len(kinds) // 10 * 10))
@@ -527,6 +528,9 @@ def init_op(draw):
         lens = [draw(st.integers(1, 5)) for _ in range(n)]
     dtype = draw(st.sampled_from(["int64", "float64"]))
     vec = draw(st.integers(0, 4)) == 0        # one machine in five holds rows of 2-vectors
+    if not vec and n >= 2 and draw(st.integers(0, 3)) == 0:
+        # an array that starts with an empty row somewhere (a trajectory that contributed no frame): "any ragged array"
+        lens[draw(st.integers(0, n - 1))] = 0
     rows = []
     for L in lens:
         if vec:
@@ -536,7 +540,9 @@ def init_op(draw):
             vals = draw(st.lists(INT_VALS, min_size=L, max_size=L))
             rows.append([v / 2 for v in vals] if dtype == "float64" else vals)
     return {"op": "init", "rows": rows, "dtype": dtype, "vec": vec,
-            "path": draw(st.sampled_from(["nested", "arrays", "flat_nd", "flat_pyints", "flat_npints", "alias_module"]))}
+            # (nested python lists with an empty row are float64 to numpy: not what the model holds)
+            "path": draw(st.sampled_from(["arrays", "flat_nd", "flat_pyints", "flat_npints", "alias_module"] if 0 in lens else
+                                         ["nested", "arrays", "flat_nd", "flat_pyints", "flat_npints", "alias_module"]))}
 
 
 def make_machine(hooks):
@@ -590,7 +596,8 @@ def make_machine(hooks):
 
         def idx(self, data, n, allow_oor=True):
             k = data.draw(st.integers(0, 19))
-            if allow_oor and k == 0:
+            if (allow_oor and k == 0) or n == 0:
+                # (every index into an empty row is out of range)
                 return data.draw(st.sampled_from([n, n + 1, -n - 1, -n - 2]))
             return data.draw(st.integers(-n, n - 1))
 
@@ -680,7 +687,7 @@ def make_machine(hooks):
             if not rows:
                 return
             minlen = min(len(self.core.m[r]) for r in rows)
-            j = self.idx(data, minlen) if data.draw(st.integers(0, 9)) else data.draw(st.integers(-6, 6))
+            j = self.idx(data, minlen) if minlen and data.draw(st.integers(0, 9)) else data.draw(st.integers(-6, 6))
             form = data.draw(st.sampled_from(["scalar", "nested", "flat"]))
             v = self.val(data) if form == "scalar" else self.val(data, len(rows))
             self.do({"op": "set_col", "rows": sel, "j": j, "form": form, "v": v})
@@ -699,6 +706,8 @@ def make_machine(hooks):
             if not rows:
                 return
             minlen = min(len(self.core.m[r]) for r in rows)
+            if minlen == 0:
+                return
             k = data.draw(st.integers(1, min(3, minlen)))
             cols = data.draw(st.lists(st.integers(-minlen, minlen - 1), min_size=k, max_size=k,
                                       unique_by=lambda c: c % minlen))
@@ -719,6 +728,8 @@ def make_machine(hooks):
             k = data.draw(st.integers(1, 4))
             if form == "pairs":
                 cells = [(i, j) for i in range(len(m)) for j in range(len(m[i]))]
+                if not cells:
+                    return
                 picks = data.draw(st.lists(st.sampled_from(cells), min_size=1, max_size=min(k, len(cells)), unique=True))
                 ii = [i - len(m) if data.draw(st.booleans()) else i for i, _ in picks]
                 jj = [j - len(m[i]) if data.draw(st.booleans()) else j for i, j in picks]
@@ -728,11 +739,15 @@ def make_machine(hooks):
             elif form == "row_int":
                 ii = data.draw(st.integers(-len(m), len(m) - 1))
                 L = len(m[ii])
+                if L == 0:
+                    return
                 jj = data.draw(st.lists(st.integers(-L, L - 1), min_size=1, max_size=min(k, L), unique_by=lambda x: x % L))
                 n = len(jj)
             else:
                 rows = data.draw(st.lists(st.integers(0, len(m) - 1), min_size=1, max_size=min(k, len(m)), unique=True))
                 minlen = min(len(m[r]) for r in rows)
+                if minlen == 0:
+                    return
                 jj = self.idx(data, minlen)
                 ii = [r - len(m) if data.draw(st.booleans()) else r for r in rows]
                 n = len(ii)
@@ -825,7 +840,7 @@ def make_machine(hooks):
 def alias_case(draw):
     op = draw(init_op())
     op["mutate"] = draw(st.sampled_from(["source", "array"]))
-    op["i"] = draw(st.integers(0, len(op["rows"]) - 1))
+    op["i"] = draw(st.sampled_from([k for k, r in enumerate(op["rows"]) if len(r)]))     # a row that has a first element
     op["copy_kw"] = draw(st.sampled_from(["default", "true"]))
     return op
 
@@ -857,7 +872,7 @@ def run_alias(case):
             for r in src:
                 if isinstance(r, np.ndarray):
                     r += 100
-                else:
+                elif len(r):
                     r[0] = 777
         require(np.array_equal(a.flatten(), snapshot), "mutating the caller's source changed the ragged array (aliased)",
                 got=a.flatten().tolist(), want=snapshot.tolist())
